@@ -2,7 +2,7 @@
     Only statements, each closed by [exact] of a general theorem instantiated with the constants
     regenerated from /repo (Gen.Gen_Config), plus non-vacuity examples. *)
 From Coq Require Import Strings.String.
-From Snoopy Require Import Lib.CStr Config.Model Config.Grammar Config.Exec Config.Values Config.Handler Config.IniLemmas Config.IniLines Config.RoundTrip.
+From Snoopy Require Import Lib.CStr Config.Model Config.Grammar Config.Exec Config.Values Config.Handler Config.IniLemmas Config.IniLines Config.RoundTrip Config.ConfDefs Config.ConfRoundTrip Config.Reach.
 From Gen Require Import Gen_Config.
 Local Open Scope N_scope.
 Notation C := Gen_Config.consts.
@@ -98,6 +98,19 @@ Proof. exact (kv_line_event C gen_ok). Qed.
 Theorem C08_grammar_roundtrip : forall f : ini_file, wf C f = true -> ini_events C (render f) = (meaning C f, 0).
 Proof. exact (grammar_roundtrip C gen_ok). Qed.
 
+(** the value shown by `snoopyctl conf`, written back into a config file, yields the same settings: for EVERY configuration reachable
+    by parsing any file (any bytes).  [conf_ok] holds the two exclusions (known findings): every printed line fits the 1023-byte
+    line buffer of the parser, and -- only while action-conf.c lacks the continuation form ([conf_cont C = false]) -- no string value
+    holds whitespace followed by ';' *)
+Theorem C08_conf_roundtrip : forall file path, let g := load C (defaults C) file in
+  conf_ok C path g = true -> load C (defaults C) (conf_print C path g) = g.
+Proof. exact (conf_roundtrip C gen_ok). Qed.
+(** the listing is a file of the supported grammar, and every reachable configuration satisfies the invariant used above *)
+Theorem C08_conf_listing_is_grammar : forall path g, render (conf_ast C path g) = conf_print C path g.
+Proof. exact (conf_render C gen_ok). Qed.
+Theorem C08_reachable_wf : forall file, cfg_wf C (load C (defaults C) file) = true.
+Proof. exact (load_wf C gen_ok). Qed.
+
 Print Assumptions C08_bool_first_letter.
 Print Assumptions C08_syslog_names.
 Print Assumptions C08_output_split.
@@ -112,6 +125,9 @@ Print Assumptions C08_ignored_error_line.
 Print Assumptions C08_section_line.
 Print Assumptions C08_kv_line_event.
 Print Assumptions C08_grammar_roundtrip.
+Print Assumptions C08_conf_roundtrip.
+Print Assumptions C08_conf_listing_is_grammar.
+Print Assumptions C08_reachable_wf.
 
 (** non-vacuity *)
 Example C08_bool_nonvacuous : parse_bool C (bytes "Yes please") = Some true /\ parse_bool C (bytes "0") = Some false /\ parse_bool C (bytes "maybe") = None.
@@ -167,3 +183,29 @@ no separator here
 unknown_key = 5
 ") = defaults C.
 Proof. split; vm_compute; reflexivity. Qed.
+
+Definition conf_example : list byte := bytes "[snoopy]
+message_format = "" %{cmdline} ""   ; outer blanks kept
+syslog_ident = '""id""'
+output = file:/var/log/a:b
+syslog_facility = log_local3
+error_logging = Yes
+log_message_max_length = 64k
+".
+Example C08_conf_nonvacuous :
+  let g := load C (defaults C) conf_example in
+  conf_ok C (bytes "/etc/snoopy.ini") g = true /\ message_format g = bytes " %{cmdline} " /\ syslog_ident g = bytes """id""" /\ log_max_len g = 65536
+  /\ load C (defaults C) (conf_print C (bytes "/etc/snoopy.ini") g) = g.
+Proof. vm_compute. repeat split; reflexivity. Qed.
+(** the two exclusions are not vacuous: the witnesses of the known findings (replayed against the real code by the check) *)
+Example C08_conf_inline_witness :
+  let g := load C (defaults C) (bytes "[snoopy]
+message_format = x
+  a ;b
+") in message_format g = bytes "a ;b" /\ (conf_cont C = true \/ load C (defaults C) (conf_print C [] g) <> g).
+Proof. vm_compute. split; [reflexivity|]. first [left; reflexivity | right; discriminate]. Qed.
+Example C08_conf_long_line_witness :
+  let g := load C (defaults C) (bytes "[snoopy]
+message_format=" ++ repeat x4d 1008 ++ [NL]) in
+  len (message_format g) = 1008 /\ conf_ok C [] g = false /\ load C (defaults C) (conf_print C [] g) <> g.
+Proof. vm_compute. split; [reflexivity|]. split; [reflexivity|discriminate]. Qed.
